@@ -256,6 +256,20 @@ func ruleOwner(c *Ctx) {
 			}
 		})
 	}
+	// Next: an integer key above the array part is either a hash key (continue after it in the key list) or
+	// an array slot that has been removed since it was handed out (the array part is exhausted: start the
+	// hash part). The two are told apart by membership in k2i — a comma-ok lookup (F60).
+	if nx := p.Fn("lua", "(*LTable).Next"); nx != nil {
+		member := false
+		allInstrs(nx, func(in ssa.Instruction) {
+			if lk, ok := in.(*ssa.Lookup); ok && lk.CommaOk {
+				if _, ok := loadsField(lk.X, fields["k2i"]); ok {
+					member = true
+				}
+			}
+		})
+		c.check(member, R, "Next:vanished-array-key-starts-hash-part", p.pos(nx.Pos()), "membership in k2i decides whether a key above the array part is a hash key", "LTable.Next treats every integer key above the array part as a hash key: when the array part has been shortened during a traversal (table.remove, which only clears existing fields) the lookup k2i[key] yields 0 and the first hash key is skipped")
+	}
 	// who may shrink the array part: Next() recognises "array exhausted" by index == len(array), so a plain
 	// store must never shorten it (clearing fields during a traversal is allowed); only the list helper
 	// Remove re-slices
